@@ -19,8 +19,8 @@ c("C02", True, PBT + "differential against an independent routing reference mode
   "Sub-checks: (a) PointIndex.SnapClosestPoints at every level against the reference for generated segments/occupied sets/grids incl. built-in grids (100 000 quick, 16 M thorough); (a') a stateful variant: rounds of insert-then-snap on ONE index; (a'') long segments through or just past a pixel corner from up to a whole grid away (fixed point differences above 2^53); (b) non-collapsing valid polygons must come back as exactly the routed boundary, ring by ring, direction sensitive; (c) exhaustive: all 28 561 segments on the quarter-pixel lattice of a 3x3 window x 30 occupied sets x 3 window positions (quick: 10 sets, 1 position). Exhaustive only for the stated slice, falsification beyond it.",
   KERNEL + "F1 (fixed in f7c02fb) witnesses are replayed on every run.",
   "DESIGN.md §5 C02")
-c("C03", True, PBT + "generated polygons on every accepted built-in set and id; oracle = nearest ideal pixel centre computed from the document numbers, tolerance = the deviation the tool reports",
-  "Every ordinate returned for 30 000 (quick) / 4.8 M (thorough) small polygons anchored at corners, splits and anywhere on the 7 accepted built-in sets and synthetic non-zero-origin grids is compared with the ideal grid derived from the document alone; cases where the reported deviation makes the test indiscriminate are counted as trivial.",
+c("C03", True, PBT + "generated polygons on every accepted built-in set and id; oracle = nearest ideal pixel centre computed from the document numbers, tolerance = the deviation the tool reports; exhaustive sub-check through the real binary for the reported deviation",
+  "Every ordinate returned for 30 000 (quick) / 4.8 M (thorough) small polygons anchored at corners, splits and anywhere on the 7 accepted built-in sets and synthetic non-zero-origin grids is compared with the ideal grid derived from the document alone; cases where the reported deviation makes the test indiscriminate are counted as trivial. Sub-check C03Cli: for every accepted set and seven id lists (ascending, descending, single) the binary prints its deviation warning iff DeviationStats for the LARGEST requested id reports >= 1 pixel, with that value and id.",
   "Trusted: document numbers, pointindex.DeviationStats as the reported deviation (per the property statement), float64 arithmetic with the stated tolerance (dev + 1e-9 + 4 ulp).",
   "DESIGN.md §5 C03")
 c("C04", True, PBT + "valid-polygon generators + three exact validity predicates (vertex provenance, half-pixel Chebyshev corridor via closed-box separating-axis test, coverage at lattice sample locations)",
@@ -31,19 +31,19 @@ c("C18", True, PBT + "collapse-biased valid-polygon generators + reference model
   "15 000 (quick) / 2.4 M (thorough) valid polygons biased to collapse; for every requested tile matrix whose routed boundary passes no centre more than twice: every output edge is a straight run of routed edges, holes lie in or on their shell, and the signed area equals the routed boundary's, exactly; shapes include nested C-shaped holes and (rarely) a 'sieve' with hundreds to 2400 holes in a shell that splits. Found F14. Plus the exhaustive triangle slice of C01.",
   KERNEL, "DESIGN.md §5 C18")
 c("C05", True, PBT + "arbitrary (valid and invalid) polygon generators, both keep modes per case, structural invariant oracle",
-  "30 000 (quick) / 4.8 M (thorough) arbitrary polygons (repetitive scribbles, words over pixel centres, tiny rings, empty rings) on grids incl. WebMercator/UPS/ETRS89 (magnitudes above 2^53, y,x axis order); every returned ring is checked for orientation (exact area sign), closure, repetition, size, and the keep/no-keep prefix relation; rare cases with 65-140 rings; sub-check C05Pipe applies the collapse policy to what processing.ProcessFeatures hands to its targets (real snapping function); thorough adds the native fuzz target FuzzC05.",
+  "30 000 (quick) / 4.8 M (thorough) arbitrary polygons (repetitive scribbles, words over pixel centres, tiny rings, empty rings, polygons without any ring) on grids incl. WebMercator/UPS/ETRS89 (magnitudes above 2^53, y,x axis order); every returned ring is checked for orientation (exact area sign), closure, repetition, size, and the keep/no-keep prefix relation; rare cases with 65-140 rings; sub-check C05Pipe applies the collapse policy to what processing.ProcessFeatures hands to its targets (real snapping function); thorough adds the native fuzz target FuzzC05.",
   KERNEL + "F4 and F9 (fixed) are covered by the generators.", "DESIGN.md §5 C05")
 c("C06", True, PBT + "arbitrary vertex sequences from a repetition grammar + exhaustive enumeration of short centre words + (thorough) native coverage-guided fuzzing; oracle = returns without panic within a confirmed hang limit",
   "50 000 (quick) / 3.2 M (thorough) arbitrary polygons of up to 200 (thorough 600) vertices per ring, plus ALL words without equal neighbours over 3/4/5 pixel centres up to length 10/8/6 (thorough 13/10/8) driving kmpDeduplicate/splitRing directly; ALL periodic words pre + u^a + v^b + suf over three centres (a, b up to 7, thorough 9; found F15); a fixed list of large structured inputs (zig-zags of 3000 repeats, slivers of 1000 pixels, combs of 1000 teeth, 3000-vertex stars; thorough larger); run times are recorded, not judged. Liveness is decided only through a 10 s limit re-confirmed at 60 s in a fresh process.",
   "Open known finding F10 (tile matrices deeper than quadtree level 32 panic with 'cannot make Z') is excluded by signature and reported as KNOWN-FINDING.", "DESIGN.md §5 C06")
 c("C07", True, PBT + "metamorphic relations: repetition in process and in a second process, every subset of rings reversed, reverse flag toggled",
-  "10 000 (quick) / 1.6 M (thorough) polygons x ~8 snaps each: three in-process repetitions, a digest comparison with a second process for up to 3000 multi-level cases per run (Go randomises map order per process), all 2^r-1 ring reversal subsets, the reverse-flag relation ring by ring, repetitions under GOMAXPROCS 1 and 8, the returned geometry must not change while another polygon is snapped, and 1 case in 150 (thorough 400) is a star of 520-2600 vertices (thorough 4000).",
+  "10 000 (quick) / 1.6 M (thorough) polygons x ~8 snaps each: three in-process repetitions, a digest comparison with a second process for up to 3000 multi-level cases per run (Go randomises map order per process), all 2^r-1 ring reversal subsets, the reverse-flag relation ring by ring, repetitions under GOMAXPROCS 1 and 8, the returned geometry must not change while another polygon is snapped, 1 case in 150 (thorough 400) is a star of 520-2600 vertices (thorough 4000); the same polygon with its rings laid out in one shared coordinate buffer must give the same result and leave the buffer untouched; 1 case in 8 repeats the call 24 times from 6 goroutines at once.",
   KERNEL, "DESIGN.md §5 C07")
 c("C08", True, PBT + "metamorphic/differential: every non-empty subset of a drawn id set against the single-id results, round grids only",
-  "10 000 (quick) / 1.6 M (thorough) polygons on synthetic dyadic grids and NetherlandsRDNewQuad; for every subset S of 2-4 drawn ids (listed in drawn, rotated or reversed order, some with an id listed twice) keys(result) is a subset of S and result[z] deep-equals the result of requesting z alone.",
+  "10 000 (quick) / 1.6 M (thorough) polygons on synthetic dyadic grids and NetherlandsRDNewQuad; for every subset S of 2-4 drawn ids (listed in drawn, rotated or reversed order, some with an id listed twice) keys(result) is a subset of S and result[z] deep-equals the result of requesting z alone; sub-check C08Huge applies the same oracle to smooth rings of 66 000-90 000 vertices (2 quick / 192 thorough).",
   "Roundness is decided by the harness (span*1e10 mod 2^level == 0).", "DESIGN.md §5 C08")
 c("C09", True, PBT + "boundary-distance generators (1e-10 units .. 10 pixels, on the exclusive border, companion inside class) + exact extent oracle on the fixed point reading",
-  "50 000 (quick) / 8 M (thorough) polygons with 1-3 vertices displaced relative to the extent; outside => panic wrapping pointindex.OutsideGridError (ignore off) or an empty map (ignore on); inside on round grids => no such error; PointIndex.InsertPoint probed with every vertex.",
+  "50 000 (quick) / 8 M (thorough) polygons with 1-3 vertices displaced relative to the extent; outside => panic wrapping pointindex.OutsideGridError (ignore off) or an empty map (ignore on); inside on round grids => no such error; PointIndex.InsertPoint probed with every vertex; far-away vertices include pairs exactly k*2^32 pixels apart whose Z-order keys collide if an oversized address is folded before it is checked.",
   "Trusted: the extent as read from tms20.MatrixBoundingBox(0). F2 (fixed in 6d18eb6) is covered by the generator.", "DESIGN.md §5 C09")
 c("C10", True, PBT + "generated feature streams, outcome tables and delay plans against a sequential reference model with recording fake targets; also under the race detector",
   "3 600 (quick) / 600 000 (thorough) streams through processing.ProcessFeatures with fakes; exact sequence equality per target (count, order, attributes, geometry, tile matrix id), delivered features re-read when the channel closes (must not have changed), return and no leaked goroutine; 1-3 tables per run with the same targets, 1-16 targets, 1 stream in ~60 with 1100-1700 features (thorough 6000) and an optional straggler; one sixth of the streams under -race with halt_on_error.",
@@ -52,22 +52,22 @@ c("C11", True, PBT + "generated histories (gate schedules owning every step at t
   "1 500 (quick) / 160 000 (thorough) gate schedules with prefix invariants after every action, done-at-return, goroutine-leak and confirmed-deadlock detection; 20% (quick) / 50% (thorough) under -race; plus ProcessFeatures with 2-5 real gpkg targets under -race (found F11).",
   "The runtime scheduler still orders the internal goroutines: sampled, not enumerated. F11 (fixed in 0ec5fb4) witness replayed.", "DESIGN.md §5 C11")
 c("C12", True, PBT + "generated GeoPackage schemas, feature counts around page-size multiples and geometries; read-back oracle over rows, R-tree, extent and metadata",
-  "3 200 (quick) / 40 000 (thorough) generated target writes through SourceGeopackage.GetTableInfo -> TargetGeopackage.CreateTables/WriteFeatures; two routes (features fed by the harness; features copied from a source by the tool's reader); rows in order with attributes (INTEGER, REAL, TEXT, DATETIME with sub-millisecond digits) and decoded geometry, spatial index ids, recorded extent, geometry column, table_info and SRS row compared with the source; page sizes 1-40 (120), several hundred with counts around multiples of 999/#columns, and huge ones up to MaxInt64.",
+  "3 200 (quick) / 160 000 (thorough) generated target writes through SourceGeopackage.GetTableInfo -> TargetGeopackage.CreateTables/WriteFeatures; two routes (features fed by the harness; features copied from a source by the tool's reader); rows in order with attributes (INTEGER, REAL, TEXT, DATETIME with sub-millisecond digits) and decoded geometry, spatial index ids, recorded extent, geometry column, table_info and SRS row compared with the source; page sizes 1-40 (120), several hundred with counts around multiples of 999/#columns, huge ones up to MaxInt64, and tables whose full page carries more than 32 766 values (33-40 columns x ~1000 rows, or page sizes 5462/8192); DATETIME values with and without zone offsets; geometry type names spelled in upper, lower and title case in the source.",
   "Runs against the verif-tagged stub driver (go-sqlite3 + ST_* in Go), not libspatialite, which is not installed.", "DESIGN.md §5 C12")
 c("C13", True, PBT + "generated source GeoPackages, id lists, flags (short/long/env spellings), target paths and pre-existing files through the REAL binary; differential against the library + independent path rule",
-  "400 (quick) / 9 600 (thorough) runs of the texel binary built from the working tree; the expected files and rows are computed by calling snap.SnapPolygon in process; rows, attributes, geometry, spatial index, extent, metadata compared; crash expected when a polygon lies outside the grid with -iog off. Found F11.",
+  "400 (quick) / 40 000 (thorough) runs of the texel binary built from the working tree; the expected files and rows are computed by calling snap.SnapPolygon in process; rows, attributes, geometry, spatial index, extent, metadata compared; crash expected when a polygon lies outside the grid with -iog off. Found F11.",
   "Differential against the library (itself the subject of C01-C09); stub driver as C12.", "DESIGN.md §5 C13")
 c("C14", True, "exhaustive enumeration of the 14 built-in sets (through the real binary and the library) and of all single-field perturbations; rapid for perturbation pairs; independent true-quadtree predicate as a two-sided oracle",
-  "All 14 sets through the binary and the library (never a panic, agreement, accepted <=> true quadtree, pixel pitch measured from actual snapping = cellSize/16 for every id); all ~4 900 single-field perturbations of the 7 accepted sets at every level with a two-sided oracle; 5 000 (quick) / 320 000 (thorough) random perturbation pairs/triples.",
+  "All 14 sets through the binary (eight id lists each: single ids and lists in both orders must give one verdict) and the library (never a panic, agreement, accepted <=> true quadtree, pixel pitch measured from actual snapping = cellSize/16 for every id); all ~4 900 single-field perturbations of the 7 accepted sets at every level with a two-sided oracle; 5 000 (quick) / 320 000 (thorough) random perturbation pairs/triples.",
   "The predicate uses the tool's stated 1.99-2.01 band for cell sizes; perturbations are generated clearly inside or outside it. F3 (fixed in 13755cc) is covered by the binary runs.", "DESIGN.md §5 C14")
 c("C15", True, PBT + "tiles/points over all built-in sets and their corner-of-origin twins against an independent extent computed from the document numbers",
-  "100 000 (quick) / 16 M (thorough) (set, matrix, tile, interior point, outside point) cases: ToNative, FromNative, MatrixBoundingBox, twin agreement, in x,y order decided from orderedAxes.",
+  "100 000 (quick) / 16 M (thorough) (set, matrix, tile, interior point, outside point) cases: ToNative, FromNative, MatrixBoundingBox, twin agreement, in x,y order decided from orderedAxes; outside points also infinite, NaN and finite up to MaxFloat64; every second case a point 2^-24..2^-44 of a tile from an edge, its tile decided with rational arithmetic and checked when float64 rounding cannot move it across.",
   "The independent extent trusts only the document numbers and orderedAxes (not tms20's EPSG axis table).", "DESIGN.md §5 C15")
 c("C16", True, PBT + "structure-aware JSON mutator over the shipped documents; round-trip, stability and an independent must-reject predicate; (thorough) native fuzzing for the no-panic clause",
-  "10 000 (quick) / 1.6 M (thorough) mutated documents (0-4 mutations) + the 15 shipped documents exhaustively: no panic, decode/encode/decode equality (structural with nil = empty list, and behavioural through MatrixBoundingBox/FromNative), byte-stable encoding also of retained values while other documents are decoded, semantic equality for shipped documents, must-reject classes rejected. Found F7b and F13.",
+  "10 000 (quick) / 1.6 M (thorough) mutated documents (0-4 mutations) + the 15 shipped documents exhaustively: no panic, decode/encode/decode equality (structural with nil = empty list, and behavioural through MatrixBoundingBox/FromNative), byte-stable encoding also of retained values while other documents are decoded, semantic equality for shipped documents, must-reject classes rejected; one case in three also through tms20.LoadJSONTileMatrixSet on a file (same verdict and value; a document followed by further content is refused). Found F7b and F13.",
   "Numbers confined to |v| <= 2^53. F6, F7, F7b, F8 (fixed) witnesses are replayed on every run.", "DESIGN.md §5 C16")
 c("C17", True, PBT + "random wide operands against a bit-by-bit interleave reference + exhaustive one/two-bit patterns",
-  "500 000 (quick) / 80 M (thorough) operand quadruples (round trip, parent key, linearity, injectivity, not-encodable above 2^32) plus all 2080 one- and two-bit patterns and their complements (exhaustive).",
+  "500 000 (quick) / 80 M (thorough) operand quadruples (round trip, parent key, linearity, injectivity, not-encodable above 2^32) plus all 2080 one- and two-bit patterns and their complements (exhaustive); sub-check C17Index (30 000 quick / 4.8 M thorough insertion histories into one PointIndex at quadtree levels 17-36: addresses built to collide under folding or truncation must be refused or reported, accepted pixels are found again, others are not).",
   "Bit-linearity + the exhaustive patterns is an argument for all 2^64 pairs, not exhaustive coverage.", "DESIGN.md §5 C17")
 
 ALL = ["C01","C02","C03","C04","C18","C05","C06","C07","C08","C09","C10","C11","C12","C13","C14","C15","C16","C17"]
